@@ -92,7 +92,7 @@ def r1_handlers(report, repo):
     rh = [x for x in ast.walk(ah[0]) if isinstance(x, ast.Call) and
           last_attr(x) == 'RecordHandler'][0]
     ok = [dotted(a) for a in rh.args] == lib.param_names(f.node)
-    recv = lib.resolve_local(f, dotted(ah[0].func.value) or '')
+    recv = lib.resolved(f, ah[0].func.value)
     ok = ok and len(recv) == 1 and call_name(recv[0]) == 'logging.getLogger' \
         and dotted(recv[0].args[0]) == 'LOGGER_PREFIX'
   report.check(ok, rule, f.qualname, 'one-handler', f.node,
